@@ -107,6 +107,7 @@ class FEval(Evaluator):
         args = [self.ev(a, env) for a in m[1][2]]
         if len(args) != 3 or args[0] != R("1"):
             self.fail("find_roots_quadratic: leading coefficient is not the literal 1", m)
+        self.roots_args = (args[1], args[2])
         arms = {}
         for pat, guard, body in m[2]:
             if guard is not None:
@@ -198,6 +199,9 @@ def gen_fresnel(repo, out):
         if ev.frame_args != [[vec_var("direction")]]:
             raise Untranslatable(cs_path, it.span[0], "index_along does not rotate exactly its `direction` argument once")
         cores[pol] = val
+        coeffs = ev.roots_args
+    body.append(f"Definition index_along_b_gen (nx ny nz sx sy sz : R) : R :=\n  {coeffs[0]}.\n")
+    body.append(f"Definition index_along_c_gen (nx ny nz sx sy sz : R) : R :=\n  {coeffs[1]}.\n")
     for pol, val in cores.items():
         body.append(f"Definition index_along_core_{pol} (nx ny nz sx sy sz : R) : R :=\n  {val}.\n")
     body.append("Definition index_along_core_gen (p : polarization) (nx ny nz sx sy sz : R) : R :=\n"
